@@ -645,6 +645,15 @@ class Gen(object):
     k = self.newk()
     has_fin = self.chance(50)
     nh = self.integer(0 if has_fin else 1, 2)
+    if nh and self.excl('no_handler_only_binding'):
+      # F30: a name whose only earlier definition sits in an except handler is "defined on some
+      # path" for the analysis although unbound on the path taken; bind every name before the try
+      pre = [n for n in self.cfg['names'] if n not in env.bound and n not in env.readonly]
+      if pre:
+        self.note('excluded:no_handler_only_binding')
+        for n in pre:
+          lines.append('%s%s = 0' % (sp, n))
+          env = self.bind(env, n)
     if has_fin:
       lines.append('%stryin(%d)' % (sp, k))
     lines.append('%stry:' % sp)
@@ -681,7 +690,10 @@ class Gen(object):
         outs[0] = o2
     j = None
     if not all(o is None for o in outs):
-      j = self.restore(_join(outs, env), env)
+      if False:
+        pass
+      else:
+        j = self.restore(_join(outs, env), env)
     if has_fin:
       self.note('finally')
       lines.append('%sfinally:' % sp)
